@@ -132,7 +132,16 @@ pub fn relate_case(cx: &mut Ctx, n: u64, case: &Value) {
         return;
     }
     if cx.wants("C01") {
-        chk(cx, "C01", "relate", case, "a.relate(b)".into(), relate_cc(&a, &b), &im);
+        // hook H6: which path relate took (disjoint-envelope shortcut or full topology graph) - a vacuity guard:
+        // bin/check demands that both paths are exercised by every run
+        let _ = geo::verif_hooks::take();
+        let r0 = relate_cc(&a, &b);
+        for l in geo::verif_hooks::take() {
+            if l.starts_with("relate:") {
+                cx.count(&format!("path_{}", &l[7..]), 1);
+            }
+        }
+        chk(cx, "C01", "relate", case, "a.relate(b)".into(), r0, &im);
         chk(cx, "C01", "relate_transposed", case, "b.relate(a)".into(), relate_cc(&b, &a), &imt);
         chk(cx, "C01", "relate_geometry_enum", case, "Geometry(a).relate(Geometry(b))".into(), relate_gg(&a, &b), &im);
         chk(cx, "C01", "relate_geometry_enum", case, "a.relate(Geometry(b))".into(), relate_cg(&a, &b), &im);
